@@ -134,7 +134,19 @@ pub fn run(lts: Arc<Lts>, o: &WalkOpts, pairs: usize) -> Value {
                 continue; // the faulted run took a shorter path than the probe: no fault was injected
             }
             sess.rot += 1;
+            for l in &sess.w.layers {
+                l.log.start();
+            }
             let obs = observe(&sess.w.root, &sess.universe, &sess.cx, sess.rot);
+            let mut ocalls = vec![];
+            for (i, l) in sess.w.layers.iter().enumerate() {
+                let mut seen = std::collections::BTreeSet::new();
+                for (m, _p) in l.log.stop() {
+                    if seen.insert(m) {
+                        ocalls.push(json!([i + 1, m]));
+                    }
+                }
+            }
             let mut e = opj.clone();
             e["ev"] = json!("fcall");
             e["k"] = json!(k);
@@ -143,6 +155,7 @@ pub fn run(lts: Arc<Lts>, o: &WalkOpts, pairs: usize) -> Value {
             e["res"] = res;
             e["obs"] = obs;
             if !sess.w.layers.is_empty() {
+                e["ocalls"] = Value::Array(ocalls);
                 e["layers"] = Value::Array(sess.w.layers.iter().map(|l| raw_snapshot(&l.root, &sess.cx, true)).collect());
             }
             out.begin(&init);
